@@ -1,8 +1,8 @@
 (* Tie between the model REGENERATED from src/trajtrap.c and src/trajbell.c by tools/c2coq.py (module Gen.GenTraj, rewritten on
    every run) and the hand-written models C14/TrapDefs.v, C14/BellDefs.v about which the theorems of Properties_C14.v are
    proved: the seven evaluation functions (position / velocity / acceleration / jerk of a planned context).  Each statement
-   holds for EVERY NumOps instance.  a_trajtrap_gen is tied in TieTrapGen.v; a_trajbell_gen contains a data-dependent loop and
-   is tied by the bit-exact correspondence only. *)
+   holds for EVERY NumOps instance.  a_trajtrap_gen is tied in TieTrapGen.v; a_trajbell_gen (data-dependent loop, translated to a
+   Fixpoint on fuel) in TieBellGen.v. *)
 From Coq Require Import ZArith Bool.
 From LibaV Require Import Common.NumOps C14.TrapDefs C14.BellDefs.
 From Gen Require Import GenTraj.
